@@ -321,6 +321,7 @@ TAG_RE = re.compile(r'//\s*\[([A-Z0-9, ]+)\]\s*$')
 
 class Unit:
     def __init__(self, name, template_path, repo, cfgs):
+        self.unit_globals = []
         self.name = name
         self.cfgs = cfgs
         self.tpl = self.load(template_path)
@@ -391,6 +392,12 @@ class Unit:
                 skipping.pop()
                 continue
             if any(skipping):
+                continue
+            if l.strip().startswith('//@global '):
+                # unit-wide textual rewrite applied to every extracted function of this unit (R4-class:
+                # std items Verus has no spec for), so that a changed body is rewritten like the pinned one
+                a, b = l.strip()[len('//@global '):].split(' => ', 1)
+                self.unit_globals.append((a.strip(), b))
                 continue
             if l.strip().startswith('//@def '):
                 mm = re.match(r'//@def\s+(\w+)\(([^)]*)\)\s*:=\s*(.*)$', l.strip())
@@ -570,6 +577,10 @@ class Unit:
             body = expand_expr_macro(body, 'retry_eintr', prm, tr, self.rewrites)
         sig = apply_global(sig, self.rewrites)
         body = apply_global(body, self.rewrites)
+        for a, b in self.unit_globals:
+            body, ng = re.subn(a, b, body)
+            if ng:
+                self.rewrites['R4u'] = self.rewrites.get('R4u', 0) + ng
         if opts.get('asserts', '').startswith('guardif:'):
             # as R3g, and additionally a panic-freedom obligation whenever the ghost condition holds
             gexpr = opts['asserts'][len('guardif:'):]
